@@ -286,7 +286,7 @@ def main():
   seed = int(os.environ.get('VERIF_SEED', '0'))
   rng = random.Random(seed * 179424673 % (2 ** 31) + 43)
   t0 = time.time()
-  n_models = 400 if tier == 'thorough' else 70
+  n_models = 2000 if tier == 'thorough' else 200
   viol = []
   dist = collections.Counter()
   nontrivial = set()
